@@ -25,7 +25,7 @@ EXC_PARENTS = {
     "KeyError": "LookupError", "LookupError": "Exception", "TypeError": "Exception",
     "AttributeError": "Exception", "ZeroDivisionError": "ArithmeticError", "ArithmeticError": "Exception",
     "NotImplementedError": "RuntimeError", "FfAssignmentError": "Exception", "AssertionError": "Exception",
-    "StopIteration": "Exception",
+    "StopIteration": "Exception", "SyntaxError": "Exception",
 }
 
 
@@ -261,6 +261,25 @@ def to_real(v):
 def is_num(v):
     return v.s in (INT, REAL, BOOL) or (v.s == PY and isinstance(v.t, (int, float)) and not isinstance(v.t, bool)) \
         or (v.s == PY and isinstance(v.t, bool))
+
+
+_RPOW = {}
+
+
+def power(eng, la, lb):
+    """x ** y: small constant natural exponents are expanded; everything else is the uninterpreted real function rpow(x, y)"""
+    both_int = la.s in (INT, BOOL) and lb.s in (INT, BOOL)
+    if lb.s == INT and z3.is_int_value(z3.simplify(lb.t)) and 0 <= z3.simplify(lb.t).as_long() <= 4:
+        x = (la.t if la.s == INT else z3.If(la.t, 1, 0)) if both_int else to_real(la)
+        r = z3.IntVal(1) if both_int else z3.RealVal(1)
+        for _ in range(z3.simplify(lb.t).as_long()):
+            r = r * x
+        return V(INT if both_int else REAL, r)
+    if "f" not in _RPOW:
+        _RPOW["f"] = z3.Function("rpow", z3.RealSort(), z3.RealSort(), z3.RealSort())
+    if eng is not None:
+        eng.assumption_log.add("x ** y with a non-constant exponent is an uninterpreted real function rpow(x, y)")
+    return V(REAL, _RPOW["f"](to_real(la), to_real(lb)))
 
 
 class Engine:
@@ -708,11 +727,7 @@ class Engine:
             st.assume(y > 0)
             return k(st, V(INT, x / y if isinstance(op, ast.FloorDiv) else x % y))
         if isinstance(op, ast.Pow):
-            if lb.s == INT and z3.is_int_value(lb.t) and 0 <= lb.t.as_long() <= 4:
-                r = z3.IntVal(1) if both_int else z3.RealVal(1)
-                for _ in range(lb.t.as_long()):
-                    r = r * x
-                return k(st, V(INT if both_int else REAL, r))
+            return k(st, power(self, la, lb))
         raise Unsupported(f"operator {type(op).__name__}")
 
     def compare(self, st, op, a, b, node, k, ctx):
@@ -823,6 +838,8 @@ class Engine:
             gname = f"global.{mod}.{n}"
             self.reads.add(gname)
             return self.ghost_get(st, gname, g[n])
+        if n in R.NAME_CONSTS:
+            return R.NAME_CONSTS[n]
         return V(("name",), n)   # module-level name (function, class, module alias, builtin)
 
     def ghost_get(self, st, gname, sort):
@@ -873,6 +890,14 @@ class Engine:
             return k(st, V(STR, self.senum_text(v)))
         if v.s[0] == "ref":
             return self.call_method(st, v, "__str__", [], {}, node, k, ctx)
+        if v.s[0] == "tuple" and len(v.t) >= 2:
+            parts = []
+            for x in v.t:
+                self.to_str(st, x, node, lambda s2, sv: parts.append(lift(sv).t) or None, ctx)
+            t = z3.StringVal("(")
+            for i, ptxt in enumerate(parts):
+                t = z3.Concat(t, ptxt) if i == 0 else z3.Concat(t, z3.StringVal(", "), ptxt)
+            return k(st, V(STR, z3.Concat(t, z3.StringVal(")"))))
         if v.s[0] == "opt":
             inner = []
             self.to_str(st, V(v.s[1], v.t[1]), node, lambda s2, sv: inner.append(sv) or None, ctx)
@@ -1069,7 +1094,7 @@ class Engine:
         if attr in fields:
             return k(st, self.load_field(st, o.t, cname, attr))
         key = self.method_key(cname, attr)
-        if key and R.CONTRACTS[key].is_property:
+        if key and key in R.CONTRACTS and R.CONTRACTS[key].is_property:
             return self.call_contract(st, key, [V(Ref(cname), o.t)], {}, node, k, ctx)
         if key or f"{cname}.{attr}" in R.EXTERNALS:
             return k(st, V(("bound",), (V(Ref(cname), o.t), attr)))
@@ -1081,7 +1106,7 @@ class Engine:
         """contract key of a method, searching base classes"""
         c = R.CLASSES[cname]
         key = f"{c['module']}.{cname}.{meth}"
-        if key in R.CONTRACTS:
+        if key in R.CONTRACTS or any(k.startswith(key + "#") for k in R.CONTRACTS):
             return key
         for b in c["bases"]:
             if b in R.CLASSES:
@@ -1192,7 +1217,34 @@ class Engine:
         self.calls_seen.append(name)
         return h(self, st, node, args, kwargs, k, ctx)
 
+    def uniform_contract(self, recv, meth):
+        """all concrete classes the receiver may have answer `meth` by contracts with the same text: one call suffices"""
+        concrete = []
+        for c in classes_of(recv.s):
+            for sc in R.subclasses(c):
+                if sc not in concrete and not R.CLASSES[sc].get("abstract"):
+                    concrete.append(sc)
+        keys = [self.method_key(c, meth) for c in concrete]
+        if len(concrete) < 2 or any(k_ is None or k_ not in R.CONTRACTS for k_ in keys):
+            return None
+        def sig(c):
+            return (tuple(c.requires), tuple(c.ensures), tuple(sorted(c.raises.items())), tuple(sorted(c.raises_may.items())),
+                    tuple(c.modifies), c.returns, c.allocates, tuple(sorted((n, str(v)) for n, v in c.params.items() if n != "self")))
+        sigs = {sig(R.CONTRACTS[k_]) for k_ in keys}
+        return keys[0] if len(sigs) == 1 else None
+
     def call_method(self, st, recv, meth, args, kwargs, node, k, ctx):
+        ukey = self.uniform_contract(recv, meth) if recv.s[0] == "ref" else None
+        if ukey is not None:
+            if recv.s[2]:
+                sn = st.fork()
+                sn.assume(recv.t == 0)
+                if self.feasible(sn):
+                    self.throw(sn, "AttributeError", node, ctx)
+                st.assume(recv.t != 0)
+            self.typing_facts(st, V((recv.s[0], recv.s[1], False), recv.t))
+            return self.call_contract(st, ukey, [V(R.CONTRACTS[ukey].params["self"], recv.t)] + args, kwargs, node, k, ctx)
+
         def body(s1, cname):
             key = self.method_key(cname, meth)
             if key is None and f"{cname}.{meth}" in R.EXTERNALS:
@@ -1279,6 +1331,20 @@ class Engine:
 
     def call_contract(self, st, key, args, kwargs, node, k, ctx, captured_from=None):
         from .specs import SpecEval
+        if key not in R.CONTRACTS:
+            # `function#variant` contracts: the variant whose parameter sorts accept the arguments
+            chosen = None
+            for k2 in sorted(R.CONTRACTS):
+                if k2.startswith(key + "#"):
+                    try:
+                        self.bind_args(R.CONTRACTS[k2], args, kwargs)
+                        chosen = k2
+                        break
+                    except Unsupported:
+                        continue
+            if chosen is None:
+                raise Unsupported(f"no contract variant of {key} accepts the arguments")
+            key = chosen
         c = R.CONTRACTS[key]
         self.calls_seen.append(key)
         bound = self.bind_args(c, args, kwargs)
@@ -1560,6 +1626,15 @@ class Engine:
                     return k(s2)
                 return self.dispatch(s1, o, node, ctx, store)
             return self.ev(tgt.value, st, f, ctx)
+        if isinstance(tgt, ast.Tuple) and v.s == ("lit",):
+            # value of ast.literal_eval: unpacking into n targets needs an n-tuple (TypeError / ValueError otherwise)
+            from .externals import lit_arity, lit_num
+            n = len(tgt.elts)
+            s_bad = st.fork()
+            s_bad.assume(lit_arity(v.t) != n)
+            self.throw(s_bad, "ValueError", node, ctx)
+            st.assume(lit_arity(v.t) == n)
+            v = V(("tuple", tuple(REAL for _ in range(n))), tuple(V(REAL, lit_num(v.t, z3.IntVal(i))) for i in range(n)))
         if isinstance(tgt, ast.Tuple):
             if v.s[0] != "tuple" or len(v.t) != len(tgt.elts):
                 raise Unsupported("tuple unpacking")
